@@ -346,7 +346,8 @@ def check_tensor_gen(case):
 # ----------------------------------------------------------------------------
 # clause 3: RGB image <-> quaternion image
 
-RANGES = ("unit", "unit", "byte", "byte", "near_unit", "near_unit", "signed", "huge", "tiny", "const")
+RANGES = ("unit", "unit", "byte", "byte", "near_unit", "near_unit", "signed", "huge", "tiny", "const", "mixed_channels",
+          "mixed_channels")
 
 
 @st.composite
@@ -364,6 +365,16 @@ def colour_cases(draw, tier):
         dtype = draw(st.sampled_from(["float64", "uint8", "float32"]))
     elif rng_kind == "near_unit":
         x = draw(hnp.arrays(np.float64, shape, elements=st.integers(-32, 96).map(lambda k: k / 64.0), fill=st.nothing()))
+    elif rng_kind == "mixed_channels":
+        # every colour channel has its own value range (a dark / slightly overshooting channel next to 0..255 ones):
+        # the documented heuristic looks at the image as a whole
+        x = np.zeros(shape)
+        for c in range(3):
+            ck = draw(st.sampled_from(["unit", "near_unit", "near_unit", "byte", "byte_frac", "signed"]))
+            el = {"unit": st.integers(0, 256).map(lambda k: k / 256.0), "near_unit": st.integers(-32, 96).map(lambda k: k / 64.0),
+                  "byte": st.integers(0, 255).map(float), "byte_frac": st.integers(0, 255 * 4).map(lambda k: k / 4.0),
+                  "signed": gen.dyadic(0, 0, 160)}[ck]
+            x[..., c] = draw(hnp.arrays(np.float64, (H, W), elements=el, fill=st.nothing()))
     elif rng_kind == "signed":
         x = draw(hnp.arrays(np.float64, shape, elements=gen.dyadic(0, 0, 160), fill=st.nothing()))
     elif rng_kind == "huge":
